@@ -3,7 +3,7 @@
 # this only parses all specification modules with SANY so that a broken spec is caught early.
 cd "$(dirname "$0")/../spec" || exit 1
 rc=0
-for f in ApiTrace.tla StepTrace.tla MachineMC.tla Cover.tla Conform.tla Equiv.tla NmfuFlags.tla LangMC.tla CompileTrace.tla ApiSpec.tla; do
+for f in NmfuArgv.tla ApiTrace.tla StepTrace.tla MachineMC.tla Cover.tla Conform.tla Equiv.tla NmfuFlags.tla LangMC.tla CompileTrace.tla ApiSpec.tla; do
   out=$(java -cp /opt/veriftools/tla/tla2tools.jar:/opt/veriftools/tla/CommunityModules-deps.jar tla2sany.SANY "$f" 2>&1)
   if echo "$out" | grep -q -i "error\|exception"; then echo "SANY failed for $f"; echo "$out" | tail -20; rc=1; fi
 done
